@@ -396,7 +396,10 @@ pub struct Agreement {
 }
 
 /// Declarations that have no kinding solution, to be appended to an accepted program.
-pub const ILL_KINDED: [(&str, &str); 16] = [
+pub const ILL_KINDED: [(&str, &str); 19] = [
+    ("rec-alias", "let zz18 = rec zzr zzr;"),
+    ("rec-alias-parenthesised", "let zz19 = rec zzr (zzr);"),
+    ("rec-alias-nested", "let zz20 = rec zzr (rec zzs zzr);"),
     ("unequal-sum", "let zz1 = {} | num;"),
     ("text-as-schema", "let zz2 = { 'a \"text\" };"),
     ("arity", "let zzf x = x; let zz3 = zzf {} {};"),
